@@ -3,6 +3,7 @@ import LhasaV.Lemmas.WrapProps
 import LhasaV.Lemmas.StreamProps
 import LhasaV.Lemmas.ReaderIndep
 import LhasaV.Lemmas.ReaderWorkTotal
+import LhasaV.Lemmas.ReaderWorkPresent
 /-!
 # C13 — every call returns; work and heap are bounded by bytes present and declared size
 
@@ -127,5 +128,39 @@ theorem run_bounded (st : Stream.St) (pol : DirPolicy) (mk : Nat → Nat)
     (Legal ops → outputBytes st pol mk ops ≤ decodedLength st pol mk ops ∧
       (run (fresh st pol mk) ops).led.live ≤ 6 * (2 + extractsOk ops) + 4) :=
   ReaderIndep.run_bounded st pol mk hl ops
+
+open Reader ReaderIndep in
+/-- **Work is bounded by the bytes PHYSICALLY present** — every history, legal or not, any
+archive: bytes pulled + bytes still present ≤ bytes present at the start. No declared size occurs:
+a header declaring a 4 GiB member over a 100-byte file costs at most 100 bytes. (Rests on
+`decoders_present`: no decoder of the table ever moves its source position past the data that is
+there.) Output side: on legal histories the bytes handed to the caller are at most the declared
+lengths of the members decoded; heap as in `heap_bounded`. -/
+theorem work_bounded (st : Stream.St) (pol : DirPolicy) (mk : Nat → Nat)
+    (hl : st.leadin.length ≤ 24) (ops : List Op) :
+    ((run (fresh st pol mk) ops).basic.stream.moved - st.moved) +
+        avail (run (fresh st pol mk) ops).basic.stream ≤ avail st ∧
+    (run (fresh st pol mk) ops).basic.stream.reads - st.reads ≤
+        avail st / 32 + (avail st + 11) / 12 + 2 * nexts ops + 2 ∧
+    (run (fresh st pol mk) ops).led.hdrs.length ≤ 2 + extractsOk ops ∧
+    hdrBlocks (run (fresh st pol mk) ops).led ≤ 6 * (2 + extractsOk ops) ∧
+    (Legal ops → outputBytes st pol mk ops ≤ decodedLength st pol mk ops ∧
+      (run (fresh st pol mk) ops).led.live ≤ 6 * (2 + extractsOk ops) + 4) :=
+  ReaderPresent.work_bounded st pol mk hl ops
+
+open Reader ReaderIndep in
+/-- one `next`: at most the bytes present are pulled (no close-charge term any more) -/
+theorem next_work_present (st : Stream.St) (pol : DirPolicy) (mk : Nat → Nat)
+    (hl : st.leadin.length ≤ 24) (ops : List Op) (r : Option HObj) (s' : Reader.St)
+    (e : next (run (fresh st pol mk) ops) = .ok (r, s')) :
+    s'.basic.stream.reads - (run (fresh st pol mk) ops).basic.stream.reads ≤
+      avail (run (fresh st pol mk) ops).basic.stream / 32 +
+      (avail (run (fresh st pol mk) ops).basic.stream + 11) / 12 + 4 ∧
+    s'.basic.stream.moved - (run (fresh st pol mk) ops).basic.stream.moved ≤
+      avail (run (fresh st pol mk) ops).basic.stream :=
+  ReaderPresent.next_work_present st pol mk hl ops r s' e
+
+/-- every decoder of the method table keeps its source position within the data present -/
+theorem decoders_present : ReaderPresent.PresentAll := ReaderPresent.presentAll
 
 end LhasaV.Props.C13
